@@ -60,6 +60,24 @@ fn main() {
             check_partition("count", format!("count={}", count), &steps, &emitted, &rest);
             checked += 1;
         } }
+        // ---- count window with columnar flushes in between: every window that closes still holds exactly `count` events
+        for count in 1..=3usize { for pre in 0..=3usize { for post in 0..=7usize {
+            let mut w = CountWindow::new(count);
+            let mut k = 0usize;
+            for _ in 0..pre { if let Some(c) = w.add_shared(ev(k, k as i64)) { if c.len() != count { fail("count", format!("count={} emitted a window of {} events", count, c.len())); } } k += 1; }
+            let _ = w.flush_columnar();
+            let mut since = 0usize;
+            for _ in 0..post {
+                let r = w.add_shared(ev(k, k as i64)); k += 1; since += 1;
+                match (&r, since == count) {
+                    (Some(c), true) => { if c.len() != count { fail("count", format!("count={} after {} events and a flush_columnar: emitted a window of {} events", count, pre, c.len())); } since = 0; }
+                    (None, false) => {}
+                    (Some(c), false) => fail("count", format!("count={}: {} events, flush_columnar, then {} more: a window of {} events closed early", count, pre, since, c.len())),
+                    (None, true) => fail("count", format!("count={}: {} events, flush_columnar, then {} more: no window closed", count, pre, since)),
+                }
+            }
+            checked += 1;
+        } } }
         // ---- tumbling window
         for dur in 1..=3i64 {
             for (in_order, wm) in [(true, true), (false, false)] {
